@@ -188,3 +188,25 @@ Proof.
   - exact (PDet_parse_aag fuel maxc lrs_init v v r1 r2 eq_refl Hw Hw Hb Hlen Hr1 Hr2).
 Qed.
 Print Assumptions C01_aiger_two_runs_partial.
+
+(* ---------- BTOR2 ---------- *)
+From Flussab Require Import Btor2 Btor2Proofs.
+
+(* One 8-byte step of the keyword scanner (ascii_lowercase_u64): whatever the test "are 8 bytes
+   buffered?" answers — SWAR kernel on the loaded word, or byte-by-byte cold path — every admissible
+   run returns the same word (the leading lowercase letters, other lanes zero), the same length, and
+   leaves the same core of the view. *)
+Theorem C01_btor2_keyword_step_paths_agree : forall (off : N) (v : view) (r : ares (N * N)),
+  WFV v -> BytesOK v ->
+  aruns (ascii_lowercase_u64 off) v r ->
+  exists v', r = ADone (lc_spec (rest_at v off)) v' /\
+             core v' = core_after v (vcur v + off + lc_look (rest_at v off)).
+Proof. exact lc_u64_spec. Qed.
+Print Assumptions C01_btor2_keyword_step_paths_agree.
+
+(* Answer-insensitivity of the whole BTOR2 parser (every line with all its fields, final outcome with
+   its error location): any two admissible abstract runs on views with the same core agree. *)
+Theorem C01_btor2_answer_insensitive : forall (fuel : nat) (lr : lrs),
+  CoreDet fuel (parse_btor2 fuel lr).
+Proof. intros fuel lr. exact (PDet_parse_btor2 fuel lr). Qed.
+Print Assumptions C01_btor2_answer_insensitive.
